@@ -59,17 +59,39 @@ type target struct {
 	allowDiv bool              // integer division by a non-constant is translated (total: BitVec.sdiv / srem / udiv / umod)
 	imports  []string
 	what     string
+	check    string   // the check that regenerates the file
+	aux      []string // packages whose functions are only referenced: a function of such a package that is in
+	// the fragment is the definition of ITS generated file (imported), one outside the fragment is taken by the
+	// hand-written model (modelCalls)
+	structs map[string]string // "importpath.Name" of a struct type without a model counterpart -> Lean structure to declare
+}
+
+// rules of the package a function belongs to (an auxiliary package keeps the rules of its own target)
+func pkgBits(p *ssa.Package) bool { return p != nil && p.Pkg.Path() == pkgPath }
+func pkgAllowDiv(p *ssa.Package) bool {
+	return p != nil && p.Pkg.Path() != pkgPath
+}
+
+// functions of xmath/num outside the translated fragment that other targets may call: the total form of the
+// hand-written model function (Lemmas/GenNumModel.lean), whose specification is proved under C01
+var modelCalls = map[string]struct{ lean, partial string }{
+	"Int128.Div": {"GenNum.Int128_Div", "panics when the divisor is zero"},
 }
 
 const fixedPath = "github.com/richardwilkes/toolbox/xmath/fixed"
 const f64Path = "github.com/richardwilkes/toolbox/xmath/fixed/f64"
+const f128Path = "github.com/richardwilkes/toolbox/xmath/fixed/f128"
 
 var targets = map[string]*target{
 	"num": {name: "num", pkgs: []string{pkgPath}, prefix: map[string]string{pkgPath: ""}, display: map[string]string{pkgPath: ""},
-		bits: true, imports: []string{"Model.U128", "Model.I128", "Lemmas.GenAttr"}, what: "package xmath/num"},
+		bits: true, imports: []string{"Model.U128", "Model.I128", "Lemmas.GenAttr"}, what: "package xmath/num", check: "C01"},
 	"f64": {name: "f64", pkgs: []string{fixedPath, f64Path}, prefix: map[string]string{fixedPath: "Fixed_", f64Path: "F64_"},
 		display: map[string]string{fixedPath: "fixed.", f64Path: "f64."}, allowDiv: true,
-		imports: []string{"Lemmas.GenAttr"}, what: "packages xmath/fixed and xmath/fixed/f64"},
+		imports: []string{"Lemmas.GenAttr"}, what: "packages xmath/fixed and xmath/fixed/f64", check: "C03"},
+	"f128": {name: "f128", pkgs: []string{f128Path}, prefix: map[string]string{f128Path: "F128_", pkgPath: ""},
+		display: map[string]string{f128Path: "f128.", pkgPath: "num."}, allowDiv: true, aux: []string{pkgPath},
+		structs: map[string]string{f128Path + ".Int": "F128_Int"},
+		imports: []string{"Generated.SSA_Num", "Lemmas.GenNumModel"}, what: "package xmath/fixed/f128", check: "C03"},
 }
 
 var cur = targets["num"]
@@ -164,21 +186,33 @@ func isBool(t types.Type) bool {
 	return ok && b.Info()&types.IsBoolean != 0
 }
 
-// structInfo: a named struct type of the package that has a Lean counterpart
+// structInfo: a named struct type that has a Lean counterpart — Uint128 / Int128 of xmath/num (the records of the
+// model), or a struct of the target for which the generated file declares a structure (cur.structs); a field is an
+// integer or again such a struct
 func structInfo(t types.Type) (lean string, st *types.Struct, ok bool) {
-	n, isN := t.(*types.Named)
-	if !isN || n.Obj().Pkg() == nil || n.Obj().Pkg().Path() != pkgPath {
+	n, isN := types.Unalias(t).(*types.Named)
+	if !isN || n.Obj().Pkg() == nil {
 		return "", nil, false
 	}
-	l, has := structMap[n.Obj().Name()]
+	var l string
+	if n.Obj().Pkg().Path() == pkgPath {
+		l = structMap[n.Obj().Name()]
+	} else if cur.structs != nil {
+		l = cur.structs[n.Obj().Pkg().Path()+"."+n.Obj().Name()]
+	}
 	s, isS := n.Underlying().(*types.Struct)
-	if !has || !isS {
+	if l == "" || !isS {
 		return "", nil, false
 	}
 	for i := 0; i < s.NumFields(); i++ {
-		if _, _, isI := intInfo(s.Field(i).Type()); !isI {
-			return "", nil, false
+		ft := s.Field(i).Type()
+		if _, _, isI := intInfo(ft); isI {
+			continue
 		}
+		if _, _, isSt := structInfo(ft); isSt {
+			continue
+		}
+		return "", nil, false
 	}
 	return l, s, true
 }
@@ -238,7 +272,7 @@ func whole(v val) (string, bool) {
 	}
 	parts := make([]string, len(v.fields))
 	for i, f := range v.fields {
-		parts[i] = f.e
+		parts[i] = valText(f)
 	}
 	return "(⟨" + strings.Join(parts, ", ") + "⟩ : " + v.lean + ")", true
 }
@@ -248,7 +282,12 @@ func namedStruct(name string, t types.Type) val {
 	l, st, _ := structInfo(t)
 	v := val{k: kStruct, e: name, atom: true, lean: l}
 	for i := 0; i < st.NumFields(); i++ {
-		v.fields = append(v.fields, val{k: kInt, e: name + "." + st.Field(i).Name(), atom: true})
+		fn := name + "." + st.Field(i).Name()
+		if _, _, isSt := structInfo(st.Field(i).Type()); isSt {
+			v.fields = append(v.fields, namedStruct(fn, st.Field(i).Type()))
+		} else {
+			v.fields = append(v.fields, val{k: kInt, e: fn, atom: true})
+		}
 	}
 	return v
 }
@@ -296,21 +335,23 @@ type global struct {
 }
 
 type gen struct {
-	prog    *ssa.Program
-	pkg     *ssa.Package // the package being collected / the package of the function being translated
-	pkgs    map[*ssa.Package]*packages.Package
-	partial map[*ssa.Function]string // translated, but the Go function panics on some inputs (why)
-	tpkg    *packages.Package
-	fns     []*ssa.Function
-	names   map[*ssa.Function]string // display name: Uint128.Add
-	lname   map[*ssa.Function]string // Lean name: Uint128_Add
-	state   map[*ssa.Function]int    // 0 unknown, 1 in progress, 2 translated, 3 skipped
-	reason  map[*ssa.Function]string
-	text    map[*ssa.Function]string
-	order   []*ssa.Function
-	globals map[*ssa.Global]*global
-	gorder  []*ssa.Global
-	gbad    map[*ssa.Global]string
+	prog       *ssa.Program
+	pkg        *ssa.Package // the package being collected / the package of the function being translated
+	pkgs       map[*ssa.Package]*packages.Package
+	partial    map[*ssa.Function]string // translated, but the Go function panics on some inputs (why)
+	aux        map[*ssa.Package]bool    // auxiliary packages (referenced, not emitted)
+	modelTaken map[string]string        // functions of auxiliary packages taken by the hand-written model
+	tpkg       *packages.Package
+	fns        []*ssa.Function
+	names      map[*ssa.Function]string // display name: Uint128.Add
+	lname      map[*ssa.Function]string // Lean name: Uint128_Add
+	state      map[*ssa.Function]int    // 0 unknown, 1 in progress, 2 translated, 3 skipped
+	reason     map[*ssa.Function]string
+	text       map[*ssa.Function]string
+	order      []*ssa.Function
+	globals    map[*ssa.Global]*global
+	gorder     []*ssa.Global
+	gbad       map[*ssa.Global]string
 }
 
 var leanReserved = map[string]bool{"from": true, "at": true, "end": true, "fun": true, "let": true, "in": true, "do": true,
@@ -968,9 +1009,9 @@ func (t *fnTrans) merge(sub *node, join *ssa.BasicBlock, envB *env) (*env, strin
 			for fi := range base.fields {
 				var xs []string
 				for _, l := range ls {
-					xs = append(xs, l.e.mem[a].fields[fi].e)
+					xs = append(xs, valText(l.e.mem[a].fields[fi]))
 				}
-				if same(xs) && xs[0] == base.fields[fi].e {
+				if same(xs) && xs[0] == valText(base.fields[fi]) {
 					continue
 				}
 				comps = append(comps, comp{name: a.Name() + "_" + st.Field(fi).Name(), typ: st.Field(fi).Type(), exprs: xs, alloc: a, fidx: fi})
@@ -978,9 +1019,9 @@ func (t *fnTrans) merge(sub *node, join *ssa.BasicBlock, envB *env) (*env, strin
 		} else {
 			var xs []string
 			for _, l := range ls {
-				xs = append(xs, l.e.mem[a].e)
+				xs = append(xs, valText(l.e.mem[a]))
 			}
-			if same(xs) && xs[0] == base.e {
+			if same(xs) && xs[0] == valText(base) {
 				continue
 			}
 			comps = append(comps, comp{name: a.Name() + "_v", typ: elem, exprs: xs, alloc: a, fidx: -1})
@@ -1301,7 +1342,7 @@ func (t *fnTrans) binop(i *ssa.BinOp, e *env) val {
 			fail("division by the constant zero")
 		}
 		if y.cst == nil {
-			if !cur.allowDiv {
+			if !pkgAllowDiv(t.f.Pkg) {
 				fail("division by a non-constant (panics when the divisor is zero)")
 			}
 			t.partial = append(t.partial, "panics when the divisor "+y.e+" is zero")
@@ -1379,7 +1420,7 @@ func (t *fnTrans) call(i *ssa.Call, e *env) val {
 	switch {
 	case callee.Pkg != nil && callee.Pkg.Pkg.Path() == "math/bits":
 		b, ok := bitsMap[callee.Name()]
-		if !cur.bits {
+		if !pkgBits(t.f.Pkg) {
 			ok = false
 		}
 		if !ok {
@@ -1415,12 +1456,20 @@ func (t *fnTrans) call(i *ssa.Call, e *env) val {
 			fail("recursion through %s", t.g.names[callee])
 		}
 		if !t.g.translate(callee) {
-			fail("calls %s, which is outside the fragment", t.g.names[callee])
+			mc, has := modelCalls[strings.TrimPrefix(t.g.names[callee], "num.")]
+			if !t.g.aux[callee.Pkg] || !has {
+				fail("calls %s, which is outside the fragment", t.g.names[callee])
+			}
+			// a function of an auxiliary package outside the fragment: taken by the hand-written model
+			t.g.modelTaken[t.g.names[callee]] = mc.lean + " (" + t.g.reason[callee] + ")"
+			t.partial = append(t.partial, "calls "+t.g.names[callee]+" ("+mc.partial+")")
+			fn = mc.lean
+		} else {
+			if why, isPartial := t.g.partial[callee]; isPartial {
+				t.partial = append(t.partial, "calls "+t.g.names[callee]+" ("+why+")")
+			}
+			fn = t.g.lname[callee]
 		}
-		if why, isPartial := t.g.partial[callee]; isPartial {
-			t.partial = append(t.partial, "calls "+t.g.names[callee]+" ("+why+")")
-		}
-		fn = t.g.lname[callee]
 		args = append(dargs, args...)
 	default:
 		name := callee.Name()
@@ -1548,7 +1597,11 @@ func (g *gen) globalValue(gl *ssa.Global) val {
 		} else {
 			bad("reads the package variable %s, whose initialiser is not constant", gl.Name())
 		}
-		g.globals[gl] = &global{name: ident(gl.Name()), def: fmt.Sprintf("@[gen_const] def %s : %s := %s\n", ident(gl.Name()), leanType(elem), def)}
+		gname := ident(gl.Name())
+		if g.aux[gl.Pkg] {
+			gname = "Num_" + gname
+		}
+		g.globals[gl] = &global{name: gname, def: fmt.Sprintf("@[gen_const] def %s : %s := %s\n", gname, leanType(elem), def)}
 		g.gorder = append(g.gorder, gl)
 	}
 	return namedOfType(g.globals[gl].name, elem)
@@ -1643,7 +1696,7 @@ func main() {
 		cur = targets[os.Args[3]]
 	}
 	cfg := &packages.Config{Mode: packages.LoadAllSyntax, Dir: repo, Tests: false}
-	pkgs, err := packages.Load(cfg, cur.pkgs...)
+	pkgs, err := packages.Load(cfg, append(append([]string{}, cur.pkgs...), cur.aux...)...)
 	if err != nil {
 		fmt.Fprintln(os.Stderr, "load:", err)
 		os.Exit(1)
@@ -1660,8 +1713,9 @@ func main() {
 	g := &gen{prog: prog, names: map[*ssa.Function]string{}, lname: map[*ssa.Function]string{},
 		state: map[*ssa.Function]int{}, reason: map[*ssa.Function]string{}, text: map[*ssa.Function]string{},
 		globals: map[*ssa.Global]*global{}, gbad: map[*ssa.Global]string{}, pkgs: map[*ssa.Package]*packages.Package{},
-		partial: map[*ssa.Function]string{}}
-	for _, path := range cur.pkgs {
+		partial: map[*ssa.Function]string{}, aux: map[*ssa.Package]bool{}, modelTaken: map[string]string{}}
+	nOwn := 0
+	for k, path := range append(append([]string{}, cur.pkgs...), cur.aux...) {
 		tp := byPath[path]
 		if tp == nil {
 			fmt.Fprintln(os.Stderr, "package not loaded:", path)
@@ -1675,7 +1729,14 @@ func main() {
 		sp.Build()
 		g.pkgs[sp] = tp
 		g.collect(sp)
+		if k < len(cur.pkgs) {
+			nOwn = len(g.fns)
+		} else {
+			g.aux[sp] = true
+		}
 	}
+	own := g.fns[:nOwn] // the functions of auxiliary packages are translated on demand only, and never emitted
+	g.fns = own
 	for _, f := range g.fns {
 		g.translate(f)
 	}
@@ -1700,11 +1761,7 @@ func main() {
 		sb.WriteString("import " + im + "\n")
 	}
 	fmt.Fprintf(&sb, "/-! GENERATED by /verif/gossa (ssagen) from the typed SSA form of %s — do not edit.\n", cur.what)
-	if cur.name == "num" {
-		sb.WriteString("    Regenerated from the working tree of the repository on every run of `./check C01`.\n\n")
-	} else {
-		sb.WriteString("    Regenerated from the working tree of the repository on every run of `./check C03`.\n\n")
-	}
+	fmt.Fprintf(&sb, "    Regenerated from the working tree of the repository on every run of `./check %s`.\n\n", cur.check)
 	sb.WriteString("    Encoding: every Go integer of width w is a `BitVec w` (int, uint, int64, uint64: `BitVec 64`; `+ - *` wrap;\n")
 	sb.WriteString("    signed comparisons go through `toInt`, unsigned ones through `toNat`; `x << n`, `x >> n` take the count as a\n")
 	sb.WriteString("    natural number, so a count ≥ 64 gives 0 as in Go; a signed `>>` is `BitVec.sshiftRight`); `bool` is `Bool`;\n")
@@ -1720,15 +1777,22 @@ func main() {
 		sb.WriteString("    A function that is generic over `T fixed.Dx` is translated once from its generic body; the type parameter\n")
 		sb.WriteString("    becomes a dictionary: one parameter per method of the constraint (`T_Multiplier`, `T_Places`), the value\n")
 		sb.WriteString("    of that method on the zero value of T, which is the only way the package calls it (`var t T;\n")
-		sb.WriteString("    t.Multiplier()`); the methods of the configurations D1..D16 are translated as they are (they ignore their\n")
-		sb.WriteString("    receiver).  A branch is `if … then … else …`; where both arms of a branch meet again the\n")
+		if cur.name == "f64" {
+			sb.WriteString("    t.Multiplier()`); the methods of the configurations D1..D16 are translated as they are (they ignore their\n")
+			sb.WriteString("    receiver).  A branch is `if … then … else …`; where both arms of a branch meet again the\n")
+		} else {
+			sb.WriteString("    t.Multiplier()`).  `f128.Int[T]` is the record `F128_Int` declared below (field `data : I128`); a call of a\n")
+			sb.WriteString("    function of xmath/num is a call of its regenerated definition in Generated/SSA_Num.lean.\n")
+			sb.WriteString("    A branch is `if … then … else …`; where both arms of a branch meet again the\n")
+		}
 	}
 	sb.WriteString("    values that differ at the join (phi nodes, updated fields of a local struct) are `let`-bound to the\n")
 	sb.WriteString("    `if` expression; other join blocks are duplicated per path.  The attributes `gen_def` / `gen_const`\n")
-	if cur.name == "num" {
-		sb.WriteString("    (Lemmas/GenAttr.lean) collect the definitions for the proof script of Props/C01Gen.lean.\n\n")
-	} else {
-		sb.WriteString("    (Lemmas/GenAttr.lean) collect the definitions for the proof script of Props/C03Gen.lean.\n\n")
+	switch cur.name {
+	case "num", "f64":
+		fmt.Fprintf(&sb, "    (Lemmas/GenAttr.lean) collect the definitions for the proof script of Props/%sGen.lean.\n\n", cur.check)
+	default:
+		fmt.Fprintf(&sb, "    (Lemmas/GenAttr.lean) collect the definitions for the proof scripts of Props/%sGen*.lean.\n\n", cur.check)
 	}
 	fmt.Fprintf(&sb, "    translated (%d):\n%s\n\n", len(translated), wrap(translated, "      ", 116))
 	if len(partial) > 0 {
@@ -1742,12 +1806,47 @@ func main() {
 	for _, s := range skipped {
 		fmt.Fprintf(&sb, "      %s — %s\n", s.Name, s.Reason)
 	}
+	if len(g.modelTaken) > 0 {
+		var ks []string
+		for k := range g.modelTaken {
+			ks = append(ks, k)
+		}
+		sort.Strings(ks)
+		fmt.Fprintf(&sb, "\n    taken by the model (%d): a function of xmath/num that is outside the translated fragment is called as the\n", len(ks))
+		sb.WriteString("    total form of the hand-written model function, whose specification is proved under C01:\n")
+		for _, k := range ks {
+			fmt.Fprintf(&sb, "      %s — %s\n", k, g.modelTaken[k])
+		}
+	}
 	sb.WriteString("-/\n\nnamespace Gen\n\n")
+	{
+		var ks []string
+		for k := range cur.structs {
+			ks = append(ks, k)
+		}
+		sort.Strings(ks)
+		for _, k := range ks {
+			tp := byPath[k[:strings.LastIndex(k, ".")]]
+			obj := tp.Types.Scope().Lookup(k[strings.LastIndex(k, ".")+1:])
+			st, isS := obj.Type().Underlying().(*types.Struct)
+			if !isS {
+				continue
+			}
+			var fs []string
+			for i := 0; i < st.NumFields(); i++ {
+				fs = append(fs, fmt.Sprintf("  %s : %s", ident(st.Field(i).Name()), leanType(st.Field(i).Type())))
+			}
+			fmt.Fprintf(&sb, "/-- `%s` -/\nstructure %s where\n%s\nderiving DecidableEq\n\n", k[strings.LastIndex(k, "/")+1:], cur.structs[k], strings.Join(fs, "\n"))
+		}
+	}
 	for _, gl := range g.gorder {
 		sb.WriteString(g.globals[gl].def)
 		sb.WriteString("\n")
 	}
 	for _, f := range g.order {
+		if g.aux[f.Pkg] {
+			continue // defined by the generated file of its own target, which is imported
+		}
 		pos := prog.Fset.Position(f.Pos())
 		fmt.Fprintf(&sb, "/-- `%s` (%s) -/\n", g.names[f], filepath.Base(pos.Filename))
 		sb.WriteString(g.text[f])
